@@ -360,10 +360,31 @@ def oracle_dir(sp, cs, td, o, cut=0):
                 want[i] = b + e - 1 - i
 
     def loose_ok():
+        # a run longer than the depth limit: the matcher gives it out in consecutive pieces.  Whatever the
+        # exact limit is, (1) the run's characters stay inside the run, (2) every piece is reversed in place,
+        # (3) a stretch left in place between / after the pieces holds at most one opposite-direction letter
+        # (two of them with neutrals in between would have matched), (4) a piece followed by another one was
+        # ended by the limit, so it is long (the generated lines have no long stretch of neutrals)
+        opp = (lambda c: c in sp.cr2l) if ctx > 0 else sp.alnum
         for b, e in loose:
             if sorted(ord_[b:e]) != list(range(b, e)):
                 return ('a run of opposite-direction letters longer than the matcher\'s depth limit (positions %d..%d) may be reversed in pieces, but its '
                         'characters must stay inside the run' % (b, e - 1), list(range(b, e)), ord_[b:e])
+            inner = [(x, y) for x, y in blocks if b <= x and y <= e]
+            for x, y in inner:
+                if ord_[x:y] != list(range(y - 1, x - 1, -1)):
+                    return ('inside the long run %d..%d the positions %d..%d are permuted but not as one piece reversed in place' % (b, e - 1, x, y - 1),
+                            list(range(y - 1, x - 1, -1)), ord_[x:y])
+            gaps = [(g0, g1) for g0, g1 in zip([b] + [y for _x, y in inner], [x for x, _y in inner] + [e]) if g0 < g1]
+            for g0, g1 in gaps:
+                k = sum(1 for i in range(g0, g1) if opp(body[i]))
+                if k > 1:
+                    return ('inside the long run %d..%d the positions %d..%d keep their place although they hold %d opposite-direction letters (a mark matches there)'
+                            % (b, e - 1, g0, g1 - 1, k), 'reversed pieces', ord_[g0:g1][:40])
+            for x, y in inner[:-1]:
+                if y - x < DEPTH_SAFE // 2:
+                    return ('inside the long run %d..%d the piece %d..%d (%d characters) ends although the depth limit of the matcher (256) was not reached'
+                            % (b, e - 1, x, y - 1, y - x), '>= %d characters' % (DEPTH_SAFE // 2), y - x)
         return None
     if sp.has_marks(body):
         want = list(range(n))
